@@ -7,6 +7,8 @@
  *      (INT96 is not offered: carquet's writer returns NOT_IMPLEMENTED for it)
  * flavour = content * 8 + null pattern
  *      content 0: ordinary values;  content 1: values whose PLAIN bytes look like file tails  <footer length> "PAR1"
+ *      content 2: tails whose "footer" is a tiny well-formed Thrift struct:  00 | 01 00 00 00 | "PAR1"  (a lone STOP byte),
+ *                 15 00 00 | 03 ..  (version = 0, STOP),  00 00 | 02 ..,  15 02 00 00 | 04 ..  (types I L F D S; others as content 1)
  *      null pattern (OPTIONAL columns) 0: (i + 2c) % 3 == 1   1: pairs of rows ((i / 2 + c) even)   2: no nulls   3: all NULL */
 #ifndef VT_TABLES_H
 #define VT_TABLES_H
@@ -22,10 +24,12 @@ static uint8_t vt_pool[PQ_MAXCOLS][PQ_MAXROWS * 8];          /* bytes of BYTE_AR
 /* plausible and implausible footer lengths placed in front of "PAR1" by the tail-like content */
 static const uint32_t VT_TAILS[12] = {0, 1, 2, 5, 8, 12, 20, 33, 64, 0x00ffffffu, 0x7ffffff0u, 0xfffffffcu};
 static const uint32_t VT_TAILS_FP[8] = {0, 1, 2, 8, 12, 33, 64, 0x00ffffffu};      /* as float/double bit patterns: no NaN */
+/* content 2: triples  <bytes ending in a tiny struct> <its length> "PAR1"  as 32-bit words */
+static const uint32_t VT_STOPTAIL[12] = {0x00000000u, 1, VT_MAGIC32, 0x00001500u, 3, VT_MAGIC32, 0x00000000u, 2, VT_MAGIC32, 0x00000215u, 4, VT_MAGIC32};
 static const float VT_F[8] = {0.0f, -1.5f, 2.25f, 1.0e10f, -3.0e-5f, 7.0f, 0.5f, -0.0f};
 static const double VT_D[8] = {0.0, -1.5, 2.25, 1.0e100, -3.0e-50, 7.0, 0.5, -0.0};
 
-static int vt_flba_len(int flavour) { return VT_CONTENT(flavour) == 1 ? 8 : 5; }
+static int vt_flba_len(int flavour) { return VT_CONTENT(flavour) >= 1 ? 8 : 5; }
 
 static int vt_is_null(int flavour, int c, int i) {
     switch (VT_NULLPAT(flavour)) {
@@ -41,7 +45,7 @@ static int vt_table(pq_schema_t* s, pq_column_t* cols, const char* spec, int row
     memset(s, 0, sizeof *s); memset(cols, 0, sizeof(pq_column_t) * PQ_MAXCOLS);
     int nc = 0; while (spec[nc] && spec[nc] != ',' && nc < PQ_MAXCOLS) nc++;
     if (rows > PQ_MAXROWS) return 0;
-    int tail = VT_CONTENT(flavour) == 1;
+    int tail = VT_CONTENT(flavour) >= 1, stop = VT_CONTENT(flavour) == 2;
     s->ncols = nc;
     for (int c = 0; c < nc; c++) {
         char ch = spec[c]; int opt = (ch >= 'a' && ch <= 'z'); char up = opt ? (char)(ch - 32) : ch;
@@ -68,14 +72,18 @@ static int vt_table(pq_schema_t* s, pq_column_t* cols, const char* spec, int row
             uint32_t tl = VT_TAILS[(i / 2 + c) % 12], tlf = VT_TAILS_FP[(i / 2 + c) % 8];
             switch (up) {
                 case 'B': col->vals[nv] = (uint8_t)(((i * 5 + c) % 3) == 0); break;
-                case 'I': { int32_t v = tail ? (int32_t)(((nv + c) & 1) ? VT_MAGIC32 : tl) : 1000 * (c + 1) + 37 * i - 1050; memcpy(col->vals + 4 * nv, &v, 4); break; }
-                case 'L': { int64_t v = tail ? (int64_t)(((uint64_t)VT_MAGIC32 << 32) | tl) : (int64_t)(((uint64_t)(c + 1)) << 33) - 7 + 1000003LL * i; memcpy(col->vals + 8 * nv, &v, 8); break; }
-                case 'F': { if (tail) { uint32_t b = ((nv + c) & 1) ? (uint32_t)VT_MAGIC32 : tlf; memcpy(col->vals + 4 * nv, &b, 4); } else { float v = VT_F[(i + c) % 8]; memcpy(col->vals + 4 * nv, &v, 4); } break; }
-                case 'D': { if (tail) { uint64_t b = ((uint64_t)VT_MAGIC32 << 32) | tlf; memcpy(col->vals + 8 * nv, &b, 8); } else { double v = VT_D[(i + 3 * c) % 8]; memcpy(col->vals + 8 * nv, &v, 8); } break; }
+                case 'I': { int32_t v = stop ? (int32_t)VT_STOPTAIL[(nv + 3 * c) % 12] : tail ? (int32_t)(((nv + c) & 1) ? VT_MAGIC32 : tl) : 1000 * (c + 1) + 37 * i - 1050; memcpy(col->vals + 4 * nv, &v, 4); break; }
+                case 'L': {     /* content 2: (struct bytes in the HIGH half) then (length | "PAR1" << 32) */
+                    int t3 = ((nv + c) / 2) % 4; uint64_t sv = (nv + c) & 1 ? (((uint64_t)VT_MAGIC32 << 32) | VT_STOPTAIL[3 * t3 + 1]) : ((uint64_t)VT_STOPTAIL[3 * t3] << 32);
+                    int64_t v = stop ? (int64_t)sv : tail ? (int64_t)(((uint64_t)VT_MAGIC32 << 32) | tl) : (int64_t)(((uint64_t)(c + 1)) << 33) - 7 + 1000003LL * i; memcpy(col->vals + 8 * nv, &v, 8); break; }
+                case 'F': { if (tail) { uint32_t b = stop ? VT_STOPTAIL[(nv + 3 * c) % 12] : ((nv + c) & 1) ? (uint32_t)VT_MAGIC32 : tlf; memcpy(col->vals + 4 * nv, &b, 4); } else { float v = VT_F[(i + c) % 8]; memcpy(col->vals + 4 * nv, &v, 4); } break; }
+                case 'D': { if (tail) { int t3 = ((nv + c) / 2) % 4; uint64_t b = !stop ? (((uint64_t)VT_MAGIC32 << 32) | tlf) : (nv + c) & 1 ? (((uint64_t)VT_MAGIC32 << 32) | VT_STOPTAIL[3 * t3 + 1]) : ((uint64_t)VT_STOPTAIL[3 * t3] << 32); memcpy(col->vals + 8 * nv, &b, 8); } else { double v = VT_D[(i + 3 * c) % 8]; memcpy(col->vals + 8 * nv, &v, 8); } break; }
                 case 'S': {
-                    int len = tail ? 8 : (i + c) % 4;
+                    int len = stop ? 12 : tail ? 8 : (i + c) % 4;
+                    if (stop && pool + len > PQ_MAXROWS * 8) { stop = 0; len = 8; }
                     col->ba[nv].data = vt_pool[c] + pool; col->ba[nv].length = len;
-                    if (tail) { memcpy(vt_pool[c] + pool, &tl, 4); memcpy(vt_pool[c] + pool + 4, "PAR1", 4); }
+                    if (stop) memcpy(vt_pool[c] + pool, &VT_STOPTAIL[3 * ((nv + c) % 4)], 12);
+                    else if (tail) { memcpy(vt_pool[c] + pool, &tl, 4); memcpy(vt_pool[c] + pool + 4, "PAR1", 4); }
                     else for (int j = 0; j < len; j++) vt_pool[c][pool + j] = (uint8_t)('a' + (i * 3 + j + c) % 26);
                     pool += len; break;
                 }
